@@ -196,7 +196,8 @@ class C05(BridgeProp):
 
     def mc_runs(self, ctx):
         deep = [] if ctx.quick else [{"module": "Switcher", "cfg": "SwitcherDeep.cfg", "timeout": 1800}]
-        return [{"module": "MC_Datagram"}, {"module": "Switcher", "cfg": "Switcher.cfg"}] + deep
+        fams = [{"module": "Switcher", "cfg": c, "workers": 8} for c in ("SwitcherPlug.cfg", "SwitcherShutter.cfg", "SwitcherThermo.cfg")]
+        return [{"module": "MC_Datagram"}, {"module": "Switcher", "cfg": "Switcher.cfg"}] + fams + deep
 
     def replay_phase(self, ctx):
         from .client import e2e_phase
